@@ -146,7 +146,29 @@ def build_payload(case_rng, par):
             bad = bytearray(gb)
             bad[rng.randrange(0, 3000)] ^= 0x55
             pre = bytes(bad) + P.filler(rng, rng.randrange(0, 500)) + pre
-    inner = pre + gb + P.filler(rng, par["post"])
+    post = P.filler(rng, par["post"])
+    if par.get("tail_lookalike") and len(gb) == 8192:
+        # the last j bytes of the protected area, continued behind it, read as a configuration header under the single-byte key
+        # that fits them (found only by an all-keys search): the look-alike begins inside the area, so it is the area's
+        j = par["tail_lookalike"]
+        hdr = b"\x00\x01\x00\x01\x00\x02\x00"
+        k1 = gb[-j] ^ hdr[0]
+        if all(gb[-j + i] == hdr[i] ^ k1 for i in range(j)) and bytes([k1]) not in (b"\x69", b"\x2e", b"\x00"):
+            post = bytes(h ^ k1 for h in hdr[j:]) + bytes([k1]) * 40 + post
+            par["allk"] = True
+        else:
+            par["tail_lookalike"] = 0
+    if par.get("xorsniff") and par.get("xs_marker"):
+        # behind the area: bytes that, in the view a XorEncoded reader would decode (d[i] = raw[i] ^ raw[i-4]), form a
+        # guard-configuration marker that cannot be unmasked - a candidate in the decoded view only
+        a = P.filler(rng, 6)
+        start = P.rx1(bytes([0, rng.choice([5, 6, 7]), 0, 1, 0, 2]), 0x8A)
+        target = a + bytes(x ^ y for x, y in zip(a[::-1], start))
+        r = bytearray(P.filler(rng, 40))
+        for t in target:
+            r.append(t ^ r[-4])
+        post = bytes(r) + P.filler(rng, 300) + post
+    inner = pre + gb + post
     base = len(pre)
     if par["container"] == "pe":
         img, info = P.build_pe(rng, arch=par["arch"], data=inner, nsec=3)
@@ -156,7 +178,7 @@ def build_payload(case_rng, par):
         payload, _ = P.xorencode(inner, rng.randbytes(4), stub=P.filler(rng, par["stub"]), marker=True)
         if par["container"] != "pe":
             # a XorEncoded stage is only recognised when it decodes to something containing a PE header
-            img, info = P.build_pe(rng, arch=par["arch"], data=pre + gb + P.filler(rng, par["post"]), nsec=2)
+            img, info = P.build_pe(rng, arch=par["arch"], data=pre + gb + post, nsec=2)
             base = info["data_offset"] + len(pre)
             payload, _ = P.xorencode(img, rng.randbytes(4), stub=P.filler(rng, par["stub"]), marker=True)
     else:
@@ -205,7 +227,7 @@ def check_case(case, ctx):
         g = c.guardrails
         if g is None:
             key = None
-            if (par["keykind"] in ("lead7", "constant", "headerlike") or par["keykind"].startswith("straddle") or par.get("guardlook")) and not key_is_top_ngram(ginfo["padded"], par["envkey"]):
+            if (par["keykind"] in ("lead7", "constant", "headerlike") or par["keykind"].startswith("straddle") or par.get("guardlook") or par.get("tail_lookalike")) and not key_is_top_ngram(ginfo["padded"], par["envkey"]):
                 key = "guardrails-key-frequency-heuristic"  # the Guardrails route cannot find the key, the look-alike block is what is left
             ctx.violation("recover.exact", "configuration returned without guardrails metadata (found by another route?)", case, key=key)
             return
@@ -295,7 +317,7 @@ def check_case(case, ctx):
         except Exception as e:  # noqa: BLE001
             ctx.violation("extract.exception", f"after the intact payload: {type(e).__name__}: {e}", case)
             return
-        plainish = par["keykind"] in ("lead7", "constant", "headerlike") or par["keykind"].startswith("straddle") or par.get("guardlook")
+        plainish = par["keykind"] in ("lead7", "constant", "headerlike") or par["keykind"].startswith("straddle") or par.get("guardlook") or par.get("tail_lookalike")
         if c2_ is not None and not plainish:
             ctx.violation("negative.no_config", f"the same area with a wrong stored checksum, analysed right after the intact payload, produced a configuration "
                           f"(guardrails={'set' if c2_.guardrails else None})", case)
@@ -303,7 +325,7 @@ def check_case(case, ctx):
     ctx.ok(fp=payload, case={"par": {k: v for k, v in par.items()}, "payload_len": len(payload)}, classes=(
         f"neg:{neg}", f"keylen:{'2-8' if len(par['envkey']) <= 8 else '9-64' if len(par['envkey']) <= 64 else '65-256'}",
         f"opts:{'+'.join(map(str, par['opts']))}", f"container:{par['container']}", f"xorenc:{par['xorenc']}", f"keykind:{par['keykind'].split(':')[0]}", f"decoy:{par.get('decoy')}",
-        "bulk:none" if not par.get("bulk") else f"bulk:{'random' if par['bulk']['byte'] is None else 'run'}", f"guardlook:{bool(par.get('guardlook'))}", f"allkeys:{bool(par.get('allk'))}",
+        "bulk:none" if not par.get("bulk") else f"bulk:{'random' if par['bulk']['byte'] is None else 'run'}", f"guardlook:{bool(par.get('guardlook'))}", f"allkeys:{bool(par.get('allk'))}", f"tail-lookalike:{par.get('tail_lookalike', 0)}",
         f"seam@block-boundary:{(base + 6138) % 8192 > 8180 or (base + 6138) % 8192 == 0}"))
 
 
@@ -378,7 +400,7 @@ def gen_par(rng, keylen, neg=None, xorsniff=None):
         "decoy": rng.choice([None, None, None, "marker", "copy"]) if neg is None else None,
     }
     if neg is None and keylen == 256 and (xorsniff if xorsniff is not None else rng.random() < 0.5):
-        par.update(xorsniff=True, keykind="xorsniff", container="raw", xorenc=False, pre=rng.choice([0, 0, 5, 100]), decoy=None)
+        par.update(xorsniff=True, keykind="xorsniff", container="raw", xorenc=False, pre=rng.choice([0, 0, 5, 100]), decoy=None, xs_marker=rng.random() < 0.6)
     if neg is None and rng.random() < 0.12:
         par["guardlook"] = (rng.randrange(200, 2040), rng.choice([0x69, 0x2E, 0x00]))
         par["decoy"] = None
@@ -390,6 +412,9 @@ def gen_par(rng, keylen, neg=None, xorsniff=None):
     if neg is None and rng.random() < 0.2:
         par["bulk"] = {"padding": rng.choice([0, 2, keylen, 2 * keylen - 1, 2 * keylen + 1, 3 * keylen, 600, rng.randrange(0, 1200)]),
                        "byte": rng.choice([None, None, 0x41, 0x00, 0xFF])}
+    if neg is None and rng.random() < 0.12 and not par.get("xorsniff") and not par.get("guardlook"):
+        par["tail_lookalike"] = 1
+        par["decoy"] = None
     if rng.random() < 0.25 and not par.get("xorsniff"):
         # the caller asks for all 256 single-byte keys: header look-alikes inside the protected area exist under other keys too
         par["allk"] = True
@@ -435,8 +460,10 @@ def run_shard(shard, ctx):
     if shard["kind"] == "positive":
         lens = list(range(2, 257))[shard["part"] :: shard["parts"]]
         if shard["part"] in (0, 1):
-            for _ in range(2):
-                check_case({"par": gen_par(rng, 256, xorsniff=True)}, ctx)
+            for k_ in range(3):
+                par = gen_par(rng, 256, xorsniff=True)
+                par["xs_marker"] = k_ != 1
+                check_case({"par": par}, ctx)
         if shard["part"] in (2, 3, 4, 5):
             # always present: all-keys extraction of an area whose key starts with eight equal bytes that are NOT 0x2e ^ a default
             # key (a header look-alike under one of the other 253 single-byte keys)
